@@ -377,6 +377,21 @@ def rt_cases(rng, pools, tier):
         inp = Input()
         inp.branches = [br]
         cases.append(inp)
+    # (ii') all ordered operator triples (thorough), a seeded sample of 1500 (quick)
+    triples = list(itertools.product([o[0] for o in OPS], repeat=3))
+    if tier == "quick":
+        rng.shuffle(triples)
+        triples = triples[:1500]
+    for (a, b, c) in triples:
+        br = Branch()
+        br.members = [g.member_for(a, rng.random() < 0.2), g.member_for(b, rng.random() < 0.2), g.member_for(c, rng.random() < 0.2)]
+        for _ in range(50):
+            br.initial = rng.choice(g.initial)
+            if g.fix_q(br.initial, br.members) == br.initial:
+                break
+        inp = Input()
+        inp.branches = [br]
+        cases.append(inp)
     # (iii) random chains
     nrand = 6000 if tier == "quick" else 60000
     for i in range(nrand):
@@ -495,6 +510,17 @@ def total_cases(rng, pools, tier):
         add("I:two_handlers", ", ".join(seq), cfgs)
         add("I:two_handlers", "%s => f, %s, %s => g" % (h1, ", ".join(items), h2), cfgs)
         add("I:two_handlers", "%s => f, %s => g, %s" % (h1, h2, ", ".join(items)), cfgs)
+    # ---- unlabelled: every single-token deletion / duplication / swap of some valid inputs
+    nsys = 40 if tier == "quick" else 400
+    for i in range(nsys):
+        inp = g.input(rng.randint(1, 3), rng.choice([2, 5]), rng.choice([None, "map", "then"]), options=rng.random() < 0.3)
+        toks = inp.render().split(" ")
+        cfg = rng.randrange(8)
+        for pos in range(len(toks)):
+            add("U", " ".join(toks[:pos] + toks[pos + 1:]), [cfg])
+            add("U", " ".join(toks[:pos] + [toks[pos]] + toks[pos:]), [cfg])
+            if pos + 1 < len(toks):
+                add("U", " ".join(toks[:pos] + [toks[pos + 1], toks[pos]] + toks[pos + 2:]), [cfg])
     # ---- unlabelled: random token soups and random edits of valid inputs
     nsoup = 3000 if tier == "quick" else 40000
     for i in range(nsoup):
